@@ -20,18 +20,22 @@
 //!                                                      | eW (`echo W`) | gN (`( exit N )`) | qN (`x=$(exit N)`)
 //!   np M M …             the same, negated (`! …`)
 //!   bg M                 `M &`  (asynchronous list, `$!` saved in `$jK`, K = number of this job)
-//!   bgp M M …            `M | M … &`
-//!   wj K                 `wait $jK`            w               `wait`
+//!   bg M M …             `M | M … &`
+//!   wj K L …             `wait $jK $jL …`      w               `wait`
 //!   wu                   `wait 9999` (a pid that was never a child)
-//!   wjj K L              `wait $jK $jL`
 //!   g N                  `( exit N )`          gg N            `( ( exit N ) )`
-//!   gp M M …             `( M | M … )`         q N             `x=$( exit N )`
-//!   qe W N               `x=$( echo W; exit N ); probe "$x"`
-//!   qq N                 `x=$( y=$( exit N ) )`
-//! After every statement the script runs `probe $!`, which prints `<$?>:<hex of $!>`.
+//!   gp M M …             `( M | M … )`         gb N            `( st N & wait $! )`
+//!   gw A B               `( st A & st B & wait )`
+//!   q N                  `x=$( exit N )`       qe W N          `x=$( echo W; exit N )`
+//!   qq N                 `x=$( y=$( exit N ) )`  qb N          `x=$( st N & wait $! )`
+//! After every statement the script runs `probe "$!" "$x"`, which prints `<$?>:<hex of $!>,<hex of $x>`.
 //!
-//! Observation: the probe trace with every `$!` value replaced by `a<k>` (k-th distinct value) — plus
-//! pipeline output — then `st=<final exit status>` and `z=<number of children of any process that are
+//! Exploration per program (`explore`): every schedule that differs within the first k scheduling
+//! choices (k = 6 quick, 12 thorough; continuation "lowest task first"), each once, breadth-first by
+//! the position of the last deviation, capped; then seeded random schedules.
+//!
+//! Observation: the probe trace `<$?>/<$!>/<$x>` with every `$!` value replaced by `a<k>` (k-th distinct
+//! value), pipeline output as `o:<word>`, then `st=<final exit status>` and `z=<number of children of any process that are
 //! alive or still hold an unreported state at exit>`.  A run that stalls is `TIMEOUT`.
 //!
 //! Oracle (Rust side, independent of the Lean model): the observation of a (program, schedule) pair
@@ -579,38 +583,39 @@ fn run_case(prog: &str, script: &str, chooser: Chooser, first: &mut Option<Strin
     taken
 }
 
-/// DFS over the first `depth` scheduling choices (continuation: lowest task first), then seeded random
-/// schedules.
+/// All schedules that differ within the first `depth` scheduling choices (continuation: lowest task
+/// first), each exactly once: a run with prefix P (then zeros) spawns, for every later position within
+/// the depth bound and every alternative there, the prefix that deviates at that position.  The queue is
+/// FIFO, so a cap cuts off the schedules with the most deviations, not the early positions.  Then seeded
+/// random schedules.
 fn explore(prog: &str, ex: &Explorer, seed: u64) {
     let Some(script) = render(prog) else {
         emit(&format!("{prog} @ -"), "bad-case", "-");
         return;
     };
     let mut first: Option<String> = None;
-    let mut prefix: Vec<u8> = vec![];
+    let mut queue: std::collections::VecDeque<Vec<u8>> = std::collections::VecDeque::new();
+    queue.push_back(vec![]);
     let mut runs = 0usize;
-    loop {
-        let taken = run_case(prog, &script, Chooser { prefix: prefix.clone(), rng: None, taken: vec![] }, &mut first);
+    while let Some(prefix) = queue.pop_front() {
+        let from = prefix.len();
+        let taken = run_case(prog, &script, Chooser { prefix, rng: None, taken: vec![] }, &mut first);
         runs += 1;
         if runs >= ex.max_dfs {
             break;
         }
-        // next prefix: increment the deepest choice (within the depth bound) that has an alternative left
-        let mut p: Vec<(u8, u8)> = taken.into_iter().take(ex.depth).collect();
-        loop {
-            match p.pop() {
-                None => break,
-                Some((c, n)) if c + 1 < n => {
-                    p.push((c + 1, n));
-                    break;
+        if queue.len() < ex.max_dfs {
+            for i in from..taken.len().min(ex.depth) {
+                let (c, n) = taken[i];
+                for alt in 0..n {
+                    if alt != c {
+                        let mut p: Vec<u8> = taken[..i].iter().map(|(c, _)| *c).collect();
+                        p.push(alt);
+                        queue.push_back(p);
+                    }
                 }
-                Some(_) => {}
             }
         }
-        if p.is_empty() {
-            break;
-        }
-        prefix = p.iter().map(|(c, _)| *c).collect();
     }
     for k in 0..ex.random {
         let rng = Rng::new(seed ^ 0xC13_0000 ^ ((k as u64) << 32) ^ 0x5bd1e995);
